@@ -288,6 +288,9 @@ impl Property for C09 {
                 mk(vec![BCall::AddValue { key: b"z".to_vec(), val: TVal::Bytes(vec![1; 5]) }], vec![Op::SetSeq { seq: 65536, k: 0 }]),
             ]
             .into_iter()
+            // signature lengths around the 255/256 boundary with a tiny content: the message-dependent part of the
+            // length (0..6 bytes) is swept through the sequence number, so that every total 295..=305 occurs
+            .chain((if (24..=35).contains(&u) { 1u64..48 } else { 1u64..1 }).map(|s| mk(vec![BCall::Seq(s)], vec![])).collect::<Vec<_>>())
         });
         // custom scheme whose signature length (50..=61) changes from one signature to the next across the
         // 55/56 boundary of the RLP string header: records right at the limit, small updates
